@@ -240,7 +240,7 @@ def main(chk):
             mism.append((int(m.group(1)), [int(x) for x in m.group(2).split(";") if x.strip()]))
     chk.cov["model_mismatches"] = len(mism)
     chk.cov["input_distribution"] = hist
-    chk.cov["exhaustive"] = ("lengths 0..%d x start,stop,step in [-%d,%d] + {nil, +-2^62, +-(2^63-1), -2^63} (step incl. 0) "
+    chk.cov["exhaustive_part"] = ("lengths 0..%d x start,stop,step in [-%d,%d] + {nil, +-2^62, +-(2^63-1), -2^63} (step incl. 0) "
                              "x {array, ASCII, 2-, 3-, 4-byte, mixed-width strings}; single indexes [-%d,%d] + the same extremes"
                              % (N, N + 2, N + 2, N + 3, N + 3))
     chk.cov["rule"] = ("every (sequence, index-or-range) is answered by Arr#at / Str#at called directly with PanInt / PanRange / PanNil "
